@@ -6,8 +6,14 @@ package internal
 //@ func internal.ToMetadata
 //@   nopanic[C04.nopanic C12.nopanic C13.nopanic]
 //@   requires[C04.no_nil_elements] forall j Int :: 0 <= j && j < len(kvs) ==> kvs[j] != nil
-//@   modifies
+//@   modifies Mdom.map_Lstring_R_L_Rstring Mlen.map_Lstring_R_L_Rstring Mval.map_Lstring_R_L_Rstring
 //@   ensures[C04.md_or_error] (result.1 == nil) != (result.0 == nil)
+//@   loop 0 invariant[C04.undecodable_is_error] forall j Int :: 0 <= j && j <= rangeindex ==> !strSuffix(lower(kvs[j].Key), "-bin") || b64url_ok(kvs[j].Value)
+//@   loop 0 invariant[C04.keys_lowercased_values_appended] md != nil && (forall j Int :: 0 <= j && j <= rangeindex ==> lower(kvs[j].Key) in md && len(md[lower(kvs[j].Key)]) >= 1)
+//@   atcall[C04.keys_lowercased_values_appended] builtin append : k == lower(h.Key) && (k in md ==> arg0 == md[k]) && (!(k in md) ==> arg0 == nil) && len(arg1) == 1 && arg1[0] == ite(strSuffix(k, "-bin"), b64url_dec(h.Value), h.Value)
+//@   atcall[C04.binary_values_decoded_or_rejected] (*encoding/base64.Encoding).DecodeString : arg1 == h.Value && strSuffix(lower(h.Key), "-bin")
+//@   ensures[C04.undecodable_is_error] (exists j Int :: 0 <= j && j < len(kvs) && strSuffix(lower(kvs[j].Key), "-bin") && !b64url_ok(kvs[j].Value)) ==> result.1 != nil
+//@   ensures[C04.decodable_is_accepted] (forall j Int :: 0 <= j && j < len(kvs) ==> !strSuffix(lower(kvs[j].Key), "-bin") || b64url_ok(kvs[j].Value)) ==> result.1 == nil
 
 //@ func internal.ToKeyValue
 //@   nopanic[C04.nopanic C12.nopanic]
@@ -15,13 +21,22 @@ package internal
 //@   ensures[C04.kv_nonnil] result != nil && (forall j Int :: 0 <= j && j < len(result) ==> result[j] != nil)
 //@   defines isKvOf(result, mds)
 //@   loop 0 invariant[C04.kv_nonnil] h != nil && (forall j Int :: 0 <= j && j < len(h) ==> h[j] != nil)
+//@   loop 0 invariant[C04.only_keys_of_the_metadata] forall j Int :: 0 <= j && j < len(h) ==> h[j].Key in lastret("metadata.Join")
+//@   loop 1 invariant[C04.only_keys_of_the_metadata] forall j Int :: 0 <= j && j < len(h) ==> h[j].Key in lastret("metadata.Join")
 //@   loop 1 invariant[C04.kv_nonnil] h != nil && (forall j Int :: 0 <= j && j < len(h) ==> h[j] != nil)
+//@   loop 1 invariant[C04.values_of_a_key_in_order] len(h) == loopentry(1, len(h)) + rangeindex + 1
+//@   loop 1 invariant[C04.values_of_a_key_in_order] forall j Int :: loopentry(1, len(h)) <= j && j < len(h) ==>
+//@     | h[j].Key == k && h[j].Value == ite(isBin, b64url_enc(vs[j - loopentry(1, len(h))]), vs[j - loopentry(1, len(h))])
+//@   loop 1 invariant[C04.earlier_entries_untouched] forall j Int :: 0 <= j && j < loopentry(1, len(h)) ==>
+//@     | h[j] == loopentry(1, h[j]) && h[j].Key == loopentry(1, h[j].Key) && h[j].Value == loopentry(1, h[j].Value)
+//@   loop 1 invariant[C04.binary_iff_bin_suffix] isBin == strSuffix(lower(k), "-bin")
 
 //@ func internal.StatsStartServerRPC
 //@   nopanic[C20.nopanic C12.nopanic C13.nopanic]
 //@   requires ctx != nil
 //@   requires forall j Int :: 0 <= j && j < len(statsHandlers) ==> statsHandlers[j] != nil
-//@   modifies cnt:(google.golang.org/grpc/stats.Handler).TagRPC cnt:(google.golang.org/grpc/stats.Handler).HandleRPC cnt:HandleRPC:*google.golang.org/grpc/stats.Begin cnt:HandleRPC:*google.golang.org/grpc/stats.InHeader cnt:google.golang.org/grpc/metadata.FromIncomingContext
+//@   modifies cnt:(google.golang.org/grpc/stats.Handler).TagRPC cnt:(google.golang.org/grpc/stats.Handler).HandleRPC cnt:HandleRPC:*google.golang.org/grpc/stats.Begin cnt:HandleRPC:*google.golang.org/grpc/stats.InHeader cnt:google.golang.org/grpc/metadata.FromIncomingContext ctxdone
+//@   loop 0 invariant[C20.begin_once_per_handler] ncalls("HandleRPC:*google.golang.org/grpc/stats.End") == old(ncalls("HandleRPC:*google.golang.org/grpc/stats.End"))
 //@   loop 0 invariant[C20.begin_once_per_handler] ncalls("HandleRPC:*google.golang.org/grpc/stats.Begin") == old(ncalls("HandleRPC:*google.golang.org/grpc/stats.Begin")) + rangeindex + 1
 //@   loop 0 invariant[C20.begin_once_per_handler] ncalls("(google.golang.org/grpc/stats.Handler).TagRPC") == old(ncalls("(google.golang.org/grpc/stats.Handler).TagRPC")) + rangeindex + 1
 //@   loop 0 invariant[C20.tagged_ctx] ctx != nil && desc(ctx, old(ctx)) && ctx_hasdl(ctx) == ctx_hasdl(old(ctx)) && ctx_newdl(ctx) == ctx_newdl(old(ctx))
@@ -33,6 +48,7 @@ package internal
 //@   nopanic[C20.nopanic C12.nopanic C13.nopanic]
 //@   requires forall j Int :: 0 <= j && j < len(statsHandlers) ==> statsHandlers[j] != nil
 //@   modifies cnt:(google.golang.org/grpc/stats.Handler).HandleRPC cnt:HandleRPC:*google.golang.org/grpc/stats.End cnt:time.Now cnt:errors.Is
+//@   loop 0 invariant[C20.end_once_per_handler] ncalls("HandleRPC:*google.golang.org/grpc/stats.Begin") == old(ncalls("HandleRPC:*google.golang.org/grpc/stats.Begin"))
 //@   loop 0 invariant[C20.end_once_per_handler] ncalls("HandleRPC:*google.golang.org/grpc/stats.End") == old(ncalls("HandleRPC:*google.golang.org/grpc/stats.End")) + rangeindex + 1
 //@   atcall[C20.end_error_iff_failure] (google.golang.org/grpc/stats.Handler).HandleRPC : (arg2.Error != nil) == (appErr != nil && !errIs(appErr, io.EOF)) && (arg2.Error != nil ==> arg2.Error == appErr)
 //@   ensures[C20.end_once_per_handler] ncalls("HandleRPC:*google.golang.org/grpc/stats.End") == old(ncalls("HandleRPC:*google.golang.org/grpc/stats.End")) + len(statsHandlers)
